@@ -32,8 +32,8 @@ TEXT = {
          "&, |, ^ (enumerate), ! (mut self), count (map/sum), derived ==, Display/Debug are outside Verus' subset: covered by Kani harnesses for N = 1, 2, 3 words, all words symbolic (bounded in N only). assume_specification for slice::fill."),
  "C13": ("proof", "Sieve::{new,min_prime,is_prime,primes,factorize} and PrimeIter::next verified for every limit n < 2^31-16: mnp[m] is the least prime factor, isp[m] <=> prime(m), primes = all primes <= n increasing; next yields (lpf, exact exponent) with strictly increasing primes; lemma_factors gives the whole factorisation.",
          "64-bit usize assumed. Preconditions 0 <= n <= N on the accessors."),
- "C14": ("proof", "Integer clauses: for each of the 10 integer types and the range forms .., a..b, a..=b, ..b, ..=b a loop-free Kani harness over fully symbolic bounds and raw output proves membership, and an explicit witness proves reachability of every value (complete, bit-precise). Determinism: next_raw/from_seed verified by Verus (state' = state*A + C mod 2^64). Shuffle: Rand::shuffle is verified in Verus to return a rearrangement for EVERY slice length, modularly against the `draw lies in the range` contract of Rand::next / Randomable (which is verified in the same unit for the unsigned forms of every width and by Kani for all types and forms).",
-         "NOT decided: the float half-open clause (floating point; (0.0..1.0).gen_from_u64(u64::MAX) == 1.0 was observed), 'every rearrangement with near-equal frequency' and 'not periodic' (statistical). the additional Kani shuffle harness on the compiled crate is bounded (len <= 4). ..b / ..=b require b > 0 / b >= 0 (otherwise the code panics)."),
+ "C14": ("proof", "Integer clauses: for each of the 10 integer types and the range forms .., a..b, a..=b, ..b, ..=b a loop-free Kani harness over fully symbolic bounds and raw output proves membership, and an explicit witness proves reachability of every value (complete, bit-precise). Float clause: a loop-free Kani harness over ALL finite f64 bounds and all raw outputs proves start <= x < end (bit-precise IEEE arithmetic; complete) - it failed on the pinned tree and holds after fix 93b88e7. Determinism: next_raw/from_seed verified by Verus (state' = state*A + C mod 2^64, output = a pinned function of the state). Serial structure: Verus lemma that for the library's constants the draw from 0..2^k (k <= 8) is NOT a function of the previous draw (the mechanism behind the period-2^k streams of the pinned tree, repaired by fix 86550aa). Shuffle: Rand::shuffle is verified in Verus to return a rearrangement for EVERY slice length, modularly against the `draw lies in the range` contract of Rand::next / Randomable (which is verified in the same unit for the unsigned forms of every width and by Kani for all types and forms).",
+         "Statistical clauses ('every rearrangement of a short slice reached with near-equal frequency', 'no short period') have no contract-level decision beyond the lemma above: they are checked by BOUNDED enumeration on the real code (120 000 seeds x lengths 2..6 x 3 seed patterns, 6-sigma tolerance; 512 draws x 9 small ranges x 6 seeds, no period <= 64) - labelled bounded, never counted as proved. The clauses of next_raw that fix its step and output functions are implementation pins: their failure alone is exit 2, it becomes a violation only together with a failing stream found on the real code. The additional Kani shuffle harness on the compiled crate is bounded (len <= 4). ..b / ..=b require b > 0 / b >= 0 (otherwise the code panics)."),
  "C15": ("proof", "next_submask / next_supermask verified for all 12 integer types (bit-vector reasoning; new state = largest submask below / smallest supermask above, by bit pattern), with lemmas that any run of steps visits every mask once in order; next_permutation verified incl. minimality (no arrangement strictly between) with repeated elements; PermutationIter::next and iter_permutations over that contract.",
          "Element type of permutations monomorphised to u32 (R4). assume_specification for slice swap/reverse/sort, count_zeros. The from_fn/chain wrappers iter_submasks/iter_supermasks, ones(), and the neighbour iterators are outside Verus' subset: Kani harnesses (u8/i8 masks exhaustive; neighbours with symbolic n,m,i,j)."),
  "C18": ("proof", "Derived relations only: gt, le, ge, partial_cmp, abs, the assigning ops, Default and the ZeroOne constants are verified over TRUSTED contracts of the x87 asm primitives (lt, neg, min, max, conversions) and an exact decoding of the 10-byte pattern; consistency of the derived == with partial_cmp is an explicit obligation.",
